@@ -100,7 +100,8 @@ PROPS = {
         "lean": "Props.C14",
         "domains": [{"name": "sched"}],
         "trusted": ["the verif-tagged event-log hooks in /repo (verifhook.Ev calls in task.go) record each action at the point documented in "
-                    "verifhook/hook_on.go; guard outcomes / exit codes of the generated Taskfile are what the generator says (a wrong rendering "
+                    "verifhook/hook_on.go — their order relative to the actions they report is regenerated into Gen.Phases and checked by the "
+                    "theorems of Props.SchedTie, what remains trusted is that the hook writes the line it is given; guard outcomes / exit codes of the generated Taskfile are what the generator says (a wrong rendering "
                     "shows up as a rejected trace, i.e. an alarm, not silently)"],
         "assumptions": ["commands are shell builtins (`exit N`); the Go scheduler is perturbed by seeded delays at hook points, not controlled"],
         "level_text": "Theorems over every trace the executor LTS accepts (all programs, flags, failing positions, interleavings, cancellations): deferred "
